@@ -23,7 +23,7 @@ COMPONENTS = dict(real=["hio.base.during.Duror (suffix/unsuffix, cursor scans)",
 ASSUMPTIONS = ["the empty key is not generated (LMDB rejects it)"]
 PROBES = ["prefix_pair_written", "suffix_shaped_key", "tuple_keys", "reopen_between_ops", "ioset_duplicate_add", "pop_until_empty", "more_than_16_values"]
 BOUNDS = dict(quick=dict(ops=40, keys=6), thorough=dict(ops=100, keys=8))
-TIERS = dict(quick=dict(cases=2500, wall=45.0), thorough=dict(cases=150000, wall=420.0))
+TIERS = dict(quick=dict(cases=8000, wall=45.0), thorough=dict(cases=150000, wall=420.0))
 SIM_TIME_UNIT = "operations"
 
 H0 = "%032x" % 0
@@ -70,7 +70,11 @@ def gen(tape, tier):
         if op in ("add", "remval") or (kind == "plain" and op in ("put", "pin")):
             arg = tape.pick("val", VALS[:4] if op in ("remval",) else VALS[:4])
         elif op in ("put", "pin"):
-            arg = [tape.pick("val", VALS[:4]) for _ in range(tape.draw("nvals", 4))]
+            if tape.flag("bigput", 1, 6):
+                # many values at once (distinct ones, so that sets grow too): ordinals past one and two hex digits
+                arg = ["w%02d" % tape.draw("wval", 40) for _ in range(6 + tape.draw("nbig", 20))]
+            else:
+                arg = [tape.pick("val", VALS[:4]) for _ in range(tape.draw("nvals", 4))]
         hist.append((op, k, arg))
     return kind, keys, hist
 
@@ -105,6 +109,7 @@ def run_case(tape, tier):
                     db = store.open_duror(path)
                     sub = mksub()
                     res.probes["reopen_between_ops"] += 1
+                    res.faults["store_closed_and_reopened"] += 1
                     got = None
                 elif kind == "plain":
                     if op == "put":
